@@ -634,6 +634,8 @@ theorem dualCost_spec (fixed oc : Bool) (csv : Str → Outcome (List Str)) (spli
   | ok b =>
     rw [hb] at h
     simp only at h
+    split at h
+    · cases h
     cases hs : buildChecked b.trie with
     | err => rw [hs] at h; cases h
     | panic => rw [hs] at h; cases h
